@@ -64,6 +64,8 @@ def replay(path):
     common.import_repo()
     if case.get("texts"):
         line = driver_replay.run_case({"tps": case["tps"], "arrivals": case["texts"], "t0": case["start"], "window": case["maxticks"] - case["start"]}, 0)
+    elif case.get("cli"):
+        line = driver_replay.roundtrip_cli_case(case.get("seed"), 0)
     else:
         line = driver_replay.roundtrip_sim_case(case.get("seed"), 0)
         mon = _validate([[line]], rep)
